@@ -1,7 +1,7 @@
 """C02 - connection lifecycle is well-formed and never hangs under any link fault."""
 import ast
 
-from ..astutil import aug_form, catches_everything, dotted, effective, handler_names, method_call
+from ..astutil import aug_form, catches_everything, dotted, effective, enclosing_stmt, handler_names, is_noise, method_call
 from ..callgraph import CallGraph, fid
 from ..consteval import fold_in
 from ..cfg import CFG, cfg_of, fact_key, norm, walk_own, _own_exprs
@@ -60,6 +60,42 @@ def blocking_calls(func):
         elif c.func.attr == 'wait' and not timed and ('event' in norm(c.func.value).lower() or 'Event' in norm(c.func.value)):
             out.append(('wait', c))
     return out
+
+
+def sync_wait_release_rules(ctx, rule='R5'):
+    """Every untimed Event.wait in SyncCrazyflie.open_link / close_link is released by each callback with which the attempt can end
+    (connected, connection_failed, disconnected), and nothing that can fail runs in the callback before the release.  Shared with
+    C19: Swarm.open_links can close the other links and raise only when the failing member's open_link returns."""
+    m = ctx.model
+    S = m.cls(SY, 'SyncCrazyflie')
+    ac = S.method('_add_callbacks')
+    regs = {}
+    for c in walk_own(ac.node):
+        if method_call(c, 'add_callback') and norm(c.func.value).startswith('self.cf.'):
+            regs[norm(c.func.value).split('.')[-1]] = norm(c.args[0]).split('.')[-1]
+    ending = {'_connect_event': ('connected', 'connection_failed', 'disconnected'), '_disconnect_event': ('disconnected',)}
+    for fn, ev in (('open_link', '_connect_event'), ('close_link', '_disconnect_event')):
+        f = S.method(fn)
+        waits = [c for c in walk_own(f.node) if method_call(c, 'wait') and norm(c.func.value) == 'self.' + ev]
+        ctx.need(len(waits) == 1, 'SyncCrazyflie.%s: wait on %s not found' % (fn, ev))
+        timed = bool(waits[0].args) or bool(waits[0].keywords)
+        for outcome in ending[ev]:
+            h = regs.get(outcome)
+            sets = []
+            if h and S.has(h):
+                hf = S.method(h)
+                gh = cfg_of(hf)
+                sets = [n for n, c in gh.find(lambda q: method_call(q, 'set') and norm(q.func.value) == 'self.' + ev)
+                        if {k for k in gh.fact_keys_at(n)} <= {fact_key('self.' + ev, True)}]
+            if sets:
+                # ... and nothing that can fail runs in the handler before the event is set (an exception there - say arithmetic on a
+                # timestamp that is still None - leaves the waiter blocked and kills the calling thread)
+                risky = [x for x in gh.nodes if x.kind == 'stmt' and x is not sets[0] and gh.path_avoiding(x, [sets[0]]) is not None and not cannot_raise(x.ast)
+                         and not (isinstance(x.ast, ast.Expr) and any(method_call(c_, 'set') for c_ in walk_own(x.ast)))]
+                ctx.inst(rule, hf, 'nothing-fails-before-release:%s/%s' % (ev, outcome), timed or not risky,
+                         'statements that may raise before %s.set() in %s: %s' % (ev, h, [norm(x.ast)[:70] for x in risky]))
+            ctx.inst(rule, f, 'released-by:%s/%s' % (ev, outcome), timed or len(sets) >= 1,
+                     'the untimed %s.wait() in %s is not released when the attempt ends with `%s` (handler %s never sets the event): the call blocks forever' % (ev, fn, outcome, h))
 
 
 def check(ctx):
@@ -189,39 +225,20 @@ def check(ctx):
     clo = g.find(lambda q: method_call(q, 'close') and norm(q.func.value) == 'self.link')
     ok = len(nul) == 1 and len(clo) == 1 and g.dominates(clo[0][0], nul[0]) and fact_key('self.link is not None', True) in g.fact_keys_at(nul[0]) and bool(dc) and g.path_avoiding(dc[0][0], [clo[0][0]]) is None
     ctx.inst('R4', cl_, 'link-closed-and-nulled', ok, 'an open link is closed and nulled before disconnected is signalled')
+    # the zero setpoint goes through the link: a driver that reports a send error calls _link_error_cb, which nulls self.link, so the
+    # attribute has to be tested again after that call (a test before it says nothing about the link at the time of the close)
+    if len(clo) == 1:
+        cst = enclosing_stmt(cl_.node, clo[0][1])
+        holder = [i for i in ast.walk(cl_.node) if isinstance(i, ast.If) and cst in i.body and any(norm(x) == 'self.link' for x in ast.walk(i.test))]
+        between = [norm(c)[:50] for i in holder[:1] for st in i.body[:i.body.index(cst)] if not is_noise(st) for c in ast.walk(st) if isinstance(c, ast.Call)]
+        ctx.inst('R4', cl_, 'link-tested-right-before-close', bool(holder) and not between,
+                 'self.link.close() runs under a test of self.link with no call in between (a call that sends through the link can end it: %s)' % (between or 'no enclosing test'))
     ends = [n for n in g.nodes if n.kind == 'stmt' and isinstance(n.ast, ast.Assign) and norm(n.ast.targets[0]) == 'self.state']
     ctx.inst('R4', cl_, 'ends-disconnected', len(ends) == 1 and norm(ends[0].ast.value) == 'State.DISCONNECTED' and ('n', ends[0].id) in g.dom()[('n', g.exit.id)], 'state = DISCONNECTED on every path')
 
     # ---- R5 ------------------------------------------------------------------------
     S = m.cls(SY, 'SyncCrazyflie')
-    ac = S.method('_add_callbacks')
-    regs = {}
-    for c in walk_own(ac.node):
-        if method_call(c, 'add_callback') and norm(c.func.value).startswith('self.cf.'):
-            regs[norm(c.func.value).split('.')[-1]] = norm(c.args[0]).split('.')[-1]
-    ending = {'_connect_event': ('connected', 'connection_failed', 'disconnected'), '_disconnect_event': ('disconnected',)}
-    for fn, ev in (('open_link', '_connect_event'), ('close_link', '_disconnect_event')):
-        f = S.method(fn)
-        waits = [c for c in walk_own(f.node) if method_call(c, 'wait') and norm(c.func.value) == 'self.' + ev]
-        ctx.need(len(waits) == 1, 'SyncCrazyflie.%s: wait on %s not found' % (fn, ev))
-        timed = bool(waits[0].args) or bool(waits[0].keywords)
-        for outcome in ending[ev]:
-            h = regs.get(outcome)
-            sets = []
-            if h and S.has(h):
-                hf = S.method(h)
-                gh = cfg_of(hf)
-                sets = [n for n, c in gh.find(lambda q: method_call(q, 'set') and norm(q.func.value) == 'self.' + ev)
-                        if {k for k in gh.fact_keys_at(n)} <= {fact_key('self.' + ev, True)}]
-            if sets:
-                # ... and nothing that can fail runs in the handler before the event is set (an exception there - say arithmetic on a
-                # timestamp that is still None - leaves the waiter blocked and kills the calling thread)
-                risky = [x for x in gh.nodes if x.kind == 'stmt' and x is not sets[0] and gh.path_avoiding(x, [sets[0]]) is not None and not cannot_raise(x.ast)
-                         and not (isinstance(x.ast, ast.Expr) and any(method_call(c_, 'set') for c_ in walk_own(x.ast)))]
-                ctx.inst('R5', hf, 'nothing-fails-before-release:%s/%s' % (ev, outcome), timed or not risky,
-                         'statements that may raise before %s.set() in %s: %s' % (ev, h, [norm(x.ast)[:70] for x in risky]))
-            ctx.inst('R5', f, 'released-by:%s/%s' % (ev, outcome), timed or len(sets) >= 1,
-                     'the untimed %s.wait() in %s is not released when the attempt ends with `%s` (handler %s never sets the event): the call blocks forever' % (ev, fn, outcome, h))
+    sync_wait_release_rules(ctx, 'R5')
     g = cfg_of(S.method('open_link'))
     w = g.find(lambda q: method_call(q, 'wait'))
     a = g.find(lambda q: method_call(q, '_add_callbacks'))
@@ -362,6 +379,12 @@ def check(ctx):
     sl = [n for n, c in g.find(lambda q: isinstance(q, ast.Call) and norm(q.func) == 'time.sleep') if fact_key('%s is None' % recv, True) in g.fact_keys_at(n)]
     ok = len(sl) == 1 and g.path_avoiding(sl[0], [rc[0][0]], avoid=[n for n in g.nodes if n.kind == 'while']) is None
     ctx.inst('R10', run, 'idle-while-no-link', ok, 'with no link the dispatcher sleeps and starts the next iteration')
+    # the link is re-read at the top of every iteration; a receive that blocks for ever keeps the dispatcher on a link that was
+    # closed (closing a driver does not wake readers of its queue) and the next connection on the same object is never served
+    wt = rc[0][1].args[0] if rc[0][1].args else (rc[0][1].keywords[0].value if rc[0][1].keywords else None)
+    wv = fold_in(run, wt) if wt is not None else None
+    ctx.inst('R10', run, 'receive-poll-is-bounded', isinstance(wv, (int, float)) and not isinstance(wv, bool) and wv > 0,
+             'receive_packet is given a positive finite wait (0 = no wait and -1 / none = block for ever in the CRTPDriver contract); found %s' % (norm(wt) if wt is not None else 'no argument'))
     ctx.inst('R10', run, 'loops-forever', any(n.kind == 'while' and isinstance(n.ast.test, ast.Constant) and n.ast.test.value is True for n in g.nodes) and
              not any(n.kind in ('return', 'break') for n in g.nodes), 'the dispatcher never leaves its loop')
 
